@@ -72,6 +72,15 @@ func interesting(ce *ast.CallExpr) (int, bool) {
 	if name == "Write" {
 		return 0, false
 	}
+	if name == "freeReconstructedIndexes" {
+		// releasing anything but the whole list of input indexes is a different event (45)
+		if len(ce.Args) != 1 {
+			return 45, true
+		}
+		if _, ok := ce.Args[0].(*ast.Ident); !ok {
+			return 45, true
+		}
+	}
 	return id, true
 }
 
